@@ -58,7 +58,13 @@ def run(ctx, model_ok):
                             "integer-valued literals, escapes it and is left to the two streams and the posed-arrangement oracle; (b) arrangement_unit_invariant takes ONE degree d for all sources "
                             "of a call (mixed degrees: tensor_unit_covariant_per_entry, through level2_refines, not combined with histories); (c) float scaling by factors that are not "
                             "powers of two (rounding differs; oracle tolerance 1e-9), over- / underflow at extreme units; (d) input validation (`check_format_input_vector` etc.) is scale-free by "
-                            "inspection of the scan only — the validators are not part of the path model (rejected calls are the `rejected` operation)",
+                            "inspection of the scan only — the validators are not part of the path model (rejected calls are the `rejected` operation); (e) audit2: the homogeneity theorems are "
+                            "free theorems of a model that is polymorphic in the position carrier (only + - 0 and the rotation action are available to it): a rounding or an absolute tolerance "
+                            "inserted into the CODE breaks none of them — only abs_sites_pinned (syntactic, five files: class_Sensor.py and input_checks.py are not scanned) and the path-scale stream "
+                            "(factors 2^k only) would notice; the exact `path` stream runs on integer positions, where rounding to decimals is invisible; (f) arrangement_unit_invariant is glue "
+                            "conditional on hF = homogeneity of each leaf's field function at EVERY point x: discharged for every x in Props/C12b for Cuboid (positive dimensions), Sphere, current "
+                            "segment and Dipole (bhjmDipole_homogeneous_all; at the dipole's position both sides are the totalised 0), available for every x in Props/C12 for Triangle / Tetrahedron; "
+                            "the Option-valued kernels (Circle, Cylinder, CylinderSegment: `none` = fuel / case id) do not have the type V -> V of a leaf's field function and are not instantiated",
                             "CylinderSegment: the ported BHJM_cylinder_segment is proved unit-free for r2 != 0 (cylseg_scale_invariant, special functions opaque: the prologue divides by the "
                             "outer radius); BHJM_cylinder_segment_internal's 360-degree branch only through the Cylinder theorem; rescaling oracle 1e-9..1e9 otherwise (proved: Dipole, Sphere, "
                             "masked Polyline row, Cuboid wrapper, Triangle, Tetrahedron, Circle, the whole ported BHJM_magnet_cylinder with cel / cel0 as opaque functions, and the TriangularMesh "
